@@ -130,6 +130,11 @@ pub fn digits_dispatch(reader: &mut DeferredReader, f: &str, ty: &str, off: usiz
 
 /// one scanner call on `reader`, recorded as scall / (src)* / sret
 pub fn scan_op(reader: &mut DeferredReader, f: &str, ty: &str, off: usize, pat: &[u8]) {
+    let f = match (ty, f) {
+        ("u256", "signed_ascii_digits") => "ascii_digits",
+        ("u256", "signed_ascii_digits_multi") => "ascii_digits_multi",
+        _ => f,
+    };
     trace::rec(json!({"ev":"scall","fn":f,"off":off,"pat":bytes_json(pat),"ty":ty}));
     let base = json!({"ev":"sret","fn":f,"off":off,"pat":bytes_json(pat),"ty":ty,"panic":false,
         "end":0,"some":false,"neg":false,"hex":[0]});
@@ -138,9 +143,19 @@ pub fn scan_op(reader: &mut DeferredReader, f: &str, ty: &str, off: usize, pat: 
         "newline" => (None, flussab::text::newline(reader, off)),
         "next_newline" => (None, flussab::text::next_newline(reader, off)),
         "fixed" => (None, flussab::text::fixed(reader, off, pat)),
+        _ if ty == "u256" => {
+            // a user-defined integer type (unsigned: only the unsigned scanners apply)
+            use crate::u256::U256;
+            let r: (Option<U256>, usize) = if f.ends_with("_multi") {
+                flussab::text::ascii_digits_multi::<U256>(reader, off)
+            } else {
+                flussab::text::ascii_digits::<U256>(reader, off)
+            };
+            (Some(r.0.map(|v| (false, v.hex_digits()))), r.1)
+        }
         _ => {
             let (v, e) = digits_dispatch(reader, f, ty, off);
-            (Some(v), e)
+            (Some(v.map(|(neg, mag)| (neg, hex_digits(mag)))), e)
         }
     });
     let mut rec = base;
@@ -151,7 +166,7 @@ pub fn scan_op(reader: &mut DeferredReader, f: &str, ty: &str, off: usize, pat: 
             if let Some((neg, mag)) = v {
                 rec["some"] = json!(true);
                 rec["neg"] = json!(neg);
-                rec["hex"] = bytes_json(&hex_digits(mag));
+                rec["hex"] = bytes_json(&mag);
             }
         }
         Err(m) => {
@@ -200,7 +215,7 @@ pub fn one_history(id: u64, seed: u64, max_ops: usize, max_len: usize, panics: b
                 v.extend_from_slice(text.as_bytes());
                 v.push(TEXT_ALPHABET[rng.gen_range(0..TEXT_ALPHABET.len())]);
             } else if scan >= 2 && rng.gen_range(0..6) == 0 {
-                let n = [1usize, 2, 3, 5, 7, 8, 9, 10, 15, 16, 17, 20, 39, 40][rng.gen_range(0..14)];
+                let n = [1usize, 2, 3, 5, 7, 8, 9, 10, 15, 16, 17, 20, 39, 40, 41, 45][rng.gen_range(0..16)];
                 if rng.gen_bool(0.3) {
                     v.push(b'-');
                 } else if rng.gen_range(0..12) == 0 {
@@ -313,7 +328,7 @@ pub fn one_history(id: u64, seed: u64, max_ops: usize, max_len: usize, panics: b
                     pat = (0..plen).map(|_| TEXT_ALPHABET[rng.gen_range(0..TEXT_ALPHABET.len())]).collect();
                 }
             }
-            let ty = INT_TYPES[rng.gen_range(0..12)];
+            let ty = if rng.gen_range(0..13) == 12 { "u256" } else { INT_TYPES[rng.gen_range(0..12)] };
             scan_op(&mut reader, f, ty, off, &pat);
             continue;
         }
